@@ -79,4 +79,53 @@ def DataFrame_nrow (truth : Term → Bool) : Out :=
     let eff0 : Term := (Term.app "._check_dimensions" [(Term.sym "self")]);
     Out.ret [eff0] (Term.app ".nrow" [(Term.app "getitem" [(Term.sym "self"), (Term.app "next" [(Term.app "iter" [(Term.sym "self")])])])])
 
+/-- dataiter/data_frame.py: DataFrame.__delitem__ (sha256 of the function source: 4e1dbfa272dd4be5) -/
+def DataFrame_delitem (truth : Term → Bool) : Out :=
+  let value' : Term := (Term.app "super().__delitem__" [(Term.sym "key")]);
+  if truth (Term.app "hasattr" [(Term.sym "self"), (Term.sym "key")]) then
+    if (!truth (Term.app ".__is_builtin_attr" [(Term.sym "self"), (Term.sym "key")])) then
+      let eff0 : Term := (Term.app "super().__delattr__" [(Term.sym "key")]);
+      Out.ret [eff0] value'
+    else
+      Out.ret [] value'
+  else
+    Out.ret [] value'
+
+/-- dataiter/data_frame.py: DataFrame.pop (sha256 of the function source: 1e9bd023a4d66dbe) -/
+def DataFrame_pop (truth : Term → Bool) : Out :=
+  let value' : Term := (Term.app "super().pop" [(Term.sym "key"), (Term.app "*" [(Term.sym "args")]), (Term.app "=**" [(Term.sym "kwargs")])]);
+  if truth (Term.app "hasattr" [(Term.sym "self"), (Term.sym "key")]) then
+    if (!truth (Term.app ".__is_builtin_attr" [(Term.sym "self"), (Term.sym "key")])) then
+      let eff0 : Term := (Term.app "super().__delattr__" [(Term.sym "key")]);
+      Out.ret [eff0] value'
+    else
+      Out.ret [] value'
+  else
+    Out.ret [] value'
+
+/-- dataiter/data_frame.py: DataFrame.__delattr__ (sha256 of the function source: d451320c51b8280e) -/
+def DataFrame_delattr (truth : Term → Bool) : Out :=
+  if truth (Term.app "In" [(Term.sym "name"), (Term.sym "self")]) then
+    Out.ret [] (Term.app ".__delitem__" [(Term.sym "self"), (Term.sym "name")])
+  else
+    Out.ret [] (Term.app "super().__delattr__" [(Term.sym "name")])
+
+/-- dataiter/data_frame.py: DataFrame.__getattr__ (sha256 of the function source: 018a5f2266811708) -/
+def DataFrame_getattr (truth : Term → Bool) : Out :=
+  if truth (Term.app "In" [(Term.sym "name"), (Term.sym "self")]) then
+    Out.ret [] (Term.app ".__getitem__" [(Term.sym "self"), (Term.sym "name")])
+  else
+    Out.raise [] "AttributeError"
+
+/-- dataiter/data_frame.py: DataFrame.__getattribute__ (sha256 of the function source: 3d4c793237b501e6) -/
+def DataFrame_getattribute (truth : Term → Bool) : Out :=
+  let value' : Term := (Term.app "super().__getattribute__" [(Term.sym "name")]);
+  if truth (Term.app "Eq" [(Term.sym "name"), (Term.sym "'COLUMN_PLACEHOLDER'")]) then
+    Out.ret [] value'
+  else
+    if (truth (Term.app "Is" [value', (Term.app ".COLUMN_PLACEHOLDER" [(Term.sym "self")])]) && truth (Term.app "In" [(Term.sym "name"), (Term.sym "self")])) then
+      Out.ret [] (Term.app "getitem" [(Term.sym "self"), (Term.sym "name")])
+    else
+      Out.ret [] value'
+
 end DI.Gen
